@@ -58,6 +58,13 @@ def workload(ctx, g):
         else:               # short text in a forced version (long padding run)
             text, cs = qrlib.text_of(mode, rng.randint(1, max(1, cap // 3)), rng); vh = v
         ev.append(qrlib.enc(text, ec, vh=vh, mh=m if (k % 5) else -1, cs=cs, gs1=1 if k % 11 == 3 else 0, chk=1, tag="matrix"))
+    # data-dependent corners of the Reed-Solomon step (found by searching with checks/gfaim.py, input aiming only): version 1-M byte-mode
+    # texts whose ten check codewords START with one / two zeros (the remainder of the division is shorter than the parity),
+    # and texts whose data codewords are all zero in whole blocks of multi-block versions
+    for t in ("order-0000152", "order-0000342", "order-0000572", "order-0005130", "order-0015226", "order-0152970"):
+        ev.append(qrlib.enc(list(t.encode()), 2, chk=1, dec=1, tag="short remainder"))
+    for (n, ec) in ((24, 4), (60, 4), (110, 3), (200, 2)):
+        ev.append(qrlib.enc([0] * n, ec, chk=1, dec=1, tag="zero blocks"))
     # placement of arbitrary codeword streams (not RS-valid) through MatrixUtil_buildMatrix
     for v in ([1, 2, 6, 7, 14, 21, 32, 40] if ctx.quick else range(1, 41)):
         ev.append(dict(op="build", v=v, ec=1 + rng.randrange(4), mask=rng.randrange(8), cw=[rng.randrange(256) for _ in range(g["total"][v - 1])]))
